@@ -30,11 +30,14 @@ Classification of a case
 
 Constructs the generator avoids on purpose (each is a known difference, reported to the lead):
   * closure capturing x followed by a binding of x later in the same block (pinned compiler:
-    assertion `unknown freevar x during emit`) — kept as corpus/C08/late_shadow.nev;
-  * INT_MIN / -1 and INT_MIN % -1 (SIGFPE in constred.c and vm_execute_op_div/mod);
+    assertion `unknown freevar x during emit`) — known finding, kept as corpus/C08/late_shadow_*.json;
   * a nested function using a name that a *following adjacent* nested function defines (Never:
     adjacent nested functions are mutually recursive; Eval.v: only earlier ones are visible);
-  * compile-time constant zero divisors (rejected by the compiler).
+  * compile-time constant zero divisors (rejected by the compiler);
+  * catch clauses on a function whose self call is in tail position (the compiler turns the call into
+    a jump; a clause that faults is then not followed by the clauses of the replaced activations; ruled
+    correct under C13's loop reading; Eval.v has no tail-call elimination).
+  INT_MIN / -1 was avoided until 7c75cd1 made it wrap; it is generated now.
 """
 import concurrent.futures
 import hashlib
